@@ -112,7 +112,7 @@ def rand_relay_beh(rng, tin, allow_skip=True, slow=True):
 
 
 def gen_general(rng, seed, family=None, faults=('loss', 'kill', 'clean_restart', 'stall', 'slowlink', 'late'), nframes=None, sync_required=None,
-                allow_skip_in_rejoin=True, ephemerals=True, hidden=False):
+                allow_skip_in_rejoin=True, ephemerals=True, hidden=False, knobs=True):
     """The C01/C02 workload: any topology family with any behaviour; fault classes as listed."""
     family = family or rng.choice(['chain', 'tee', 'tee_rejoin', 'tee_rejoin', 'tee_rejoin3', 'join', 'diamond_chain'])
     nframes = nframes or rng.randint(10, 24)
@@ -216,4 +216,22 @@ def gen_general(rng, seed, family=None, faults=('loss', 'kill', 'clean_restart',
         scn_faults.append({'at_ms': at, 'kind': 'kill_restart', 'node': victim, 'delay_ms': delay})
         until = 60000
         # a restarted source starts again at seq 0 with a new incarnation; sinks keep running until everything is done
+    if knobs:
+        # documented per-filter settings that change how the messaging code is driven (none of them is allowed to break C01/C02)
+        used = []
+        for n in p.nodes:
+            cfg = n['config']
+            if n['role'] != 'source' and rng.random() < 0.15:
+                cfg['sources_low_latency'] = True              # no prefetch request
+                used.append('low_latency')
+            if n['role'] == 'sink' and rng.random() < 0.15:
+                cfg['sources_timeout'] = rng.choice([150, 400])   # process({}) when nothing arrived in time
+                used.append('sources_timeout')
+            if n['role'] != 'sink' and rng.random() < 0.12:
+                cfg['outputs_timeout'] = rng.choice([0, 150, 500])   # give up on a publish nobody asked for
+                used.append('outputs_timeout')
+            if n['role'] == 'relay' and family in ('chain',) and rng.random() < 0.15:
+                cfg['mq_msgid_sync'] = False                    # relay numbers its output itself (documented to break id matching, so only where nothing is rejoined)
+                used.append('no_msgid_sync')
+        extra['knobs'] = sorted(set(used))
     return finish(p, seed, link, until, faults=scn_faults, family=family, **extra)
